@@ -85,6 +85,102 @@ def concrete_replay(isa, ob, lab, model):
     return len(diffs) == 0, detail
 
 
+def native_replay(isa, ob, lab, model):
+    """x86-64 only: run the fragment on the real CPU from the model's pre-state and compare the dumped state with the
+    exit state the SME predicts under the model.  Returns dict(agrees: bool | None, ...)"""
+    if isa.NAME != 'x86_64' or lab is None or lab.startswith('<') and lab != '<computed>':
+        return None
+    import fragnative
+    env0, pre = ob.extra['env'], ob.extra['pre']
+    s_sym = ob.extra['exit_states'].get(lab)
+    if s_sym is None:
+        return None
+
+    def ev(t):
+        if isinstance(t, int):
+            return t
+        return model.eval(bv(t), model_completion=True).as_long()
+
+    def has_fresh(t):
+        return (not isinstance(t, int)) and ('!' in str(t))
+    prog = core.Program(isa, ob.text)
+    label_vals = {ev(v): k for k, v in env0._label_addr.items() if k in prog.labels}
+    sym_values = {}      # pre-state words are plain variables: none of them is a code address (the invoke table is set by location)
+    loc_syms = {}
+    skip_names = []
+    entry = None
+    eidx = ob.extra.get('entry', 0)
+    if eidx:
+        if prog.ins[eidx].op == 'label':
+            entry = (prog.ins[eidx].a[0], 0)
+        else:
+            for tname, ents in prog.tables.items():
+                if eidx in ents:
+                    entry = (tname, isa.FIXED_JUMP_SIZE * ents.index(eidx))
+        if entry is None:
+            return {'agrees': None, 'error': 'entry point is not addressable natively'}
+    if ob.shape.get('kind') == 'invoke':
+        # the closure's second temporary holds the (external) method table address: point it at the harness's landing table
+        n_ = ob.shape['n']
+        loc = ob.extra['locs'][n_ - 1][1]
+        loc_syms[('reg', loc.reg) if loc.reg is not None else ('stk', loc.off)] = fragnative.EXIT_TABLE
+        if loc.reg is None:
+            env0.stack_init(loc.off)
+        skip_names.append(str(loc.pre(pre)))
+    sym_values.pop(0, None)
+    regs = {r: ev(v) for r, v in pre.regs.items()}
+    stack = {off: ev(v) for off, v in env0._stack_init.items() if 0 <= off < env0.stack_hi}
+    heap_words = [[ev(w) for w in row] for row in pre.mem]
+    exits = sorted(l for l in prog.referenced_labels() if l not in prog.labels and l not in ('print_i64', 'println_i64'))
+    out = fragnative.build_and_run(ob.text, regs, stack, ev(env0.H), heap_words, exits, spill_bytes=env0.stack_hi, sym_values=sym_values, loc_syms=loc_syms, entry=entry)
+    if 'error' in out:
+        return {'agrees': None, 'error': out['error']}
+    if out.get('crashed'):
+        return {'agrees': None, 'crashed': True, 'note': 'the native run crashed (e.g. wild pointer): consistent with a fault, not comparable'}
+    diffs = []
+    if lab == '<computed>':
+        nd, pos = ob.shape.get('ndtors', 2), ob.shape.get('tagpos', 1)
+        want = 100 + (pos if nd > 1 else 0)
+        if out.get('exit_id') != want:
+            diffs.append(f"computed jump landed at table entry {out.get('exit_id')}, expected {want}")
+    elif out.get('exit_id') is None or out['exit_id'] < 0 or out['exit_id'] >= len(exits) or exits[out['exit_id']] != lab:
+        diffs.append(f"exit {out.get('exit_id')} instead of {lab}")
+
+    def expect(v, t=None):
+        # only terms that mention a label-address variable denote code addresses
+        if t is None or isinstance(t, int) or 'A_' not in str(t):
+            return v
+        for base, name in label_vals.items():
+            if base <= v < base + 64 and name in out['syms']:
+                return out['syms'][name] + (v - base)
+        return v
+    if out.get('spdelta') != s_sym.spd:
+        diffs.append(f"sp delta {out.get('spdelta')} vs {s_sym.spd}")
+    for r, t in s_sym.regs.items():
+        if has_fresh(t) or any(nm in str(t) for nm in skip_names):
+            continue
+        if expect(ev(t), t) != out['regs'][r]:
+            diffs.append(f"{r}: native {out['regs'][r]:#x}, predicted {expect(ev(t), t):#x}")
+    for b in range(env0.N):
+        for w in range(8):
+            t = s_sym.mem[b][w]
+            if has_fresh(t):
+                continue
+            if expect(ev(t), t) != out['heap'][8 * b + w]:
+                diffs.append(f"heap[{b}][{w}]: native {out['heap'][8 * b + w]:#x}, predicted {expect(ev(t)):#x}")
+    for o, t in s_sym.stack.items():
+        if 0 <= o < env0.stack_hi and not has_fresh(t) and o in out['stack']:
+            if expect(ev(t), t) != out['stack'][o]:
+                diffs.append(f"stack[{o}]: native {out['stack'][o]:#x}, predicted {expect(ev(t)):#x}")
+    if len(out['events']) != len(s_sym.events):
+        diffs.append(f"{len(out['events'])} print calls vs {len(s_sym.events)}")
+    else:
+        for (code, arg, align), e in zip(out['events'], s_sym.events):
+            if (code == 2) != (e[0] == 'println_i64') or arg != ev(e[1]):
+                diffs.append("print event differs")
+    return {'agrees': not diffs, 'diffs': diffs[:8], 'exit': out.get('exit_id'), 'events': out['events'][:4]}
+
+
 def splits_for(isa, shape, N):
     """exhaustive case split on the block index of the pointers the fragment dereferences as store/load bases"""
     k = shape['kind']
@@ -147,6 +243,18 @@ def run_item(item):
         out['nqueries'] += len(rs)
         out['solver_s'] = round(out['solver_s'] + sum(r.secs for r in rs), 3)
         bad = [r for r in rs if not r.ok]
+        if not bad and item.get('native_validate') and isa.NAME == 'x86_64':
+            # model validation against the real CPU: the reachability witness of every exit is replayed natively and the
+            # dumped state compared with the state the ISA table predicts
+            for r in rs:
+                if r.name.startswith('reach:') and r.verdict == 'sat' and r.model is not None:
+                    try:
+                        nat = native_replay(isa, ob, r.name.split(':', 1)[1], r.model)
+                    except Exception as e:
+                        nat = {'agrees': None, 'error': f"{type(e).__name__}: {e}"}
+                    if nat is None:
+                        continue
+                    out.setdefault('native_validation', []).append({'exit': r.name, 'agrees': nat.get('agrees'), 'diffs': nat.get('diffs'), 'error': nat.get('error'), 'crashed': nat.get('crashed')})
         if not bad:
             continue
         if all(r.inconclusive for r in bad):
@@ -162,6 +270,14 @@ def run_item(item):
         else:
             lab = r.name.split(':')[1] if r.name.startswith(('goal:', 'unexpected:')) else None
             ok, detail = concrete_replay(isa, ob, lab, r.model)
+            try:
+                nat = native_replay(isa, ob, lab, r.model) if ok else None
+            except Exception as e:
+                nat = {'agrees': None, 'error': f"{type(e).__name__}: {e}"}
+            if nat is not None:
+                detail['native'] = nat
+                if nat.get('agrees') is False:
+                    ok = False      # the real CPU does not do what the ISA table predicts on this input: the model is wrong
             out['status'] = 'violation' if ok else 'unreproduced'
             out['replay'] = detail
             out['model'] = oblig.describe_model(ob, lab, r.model)
@@ -198,6 +314,12 @@ def aggregate(chk, results, key_fn, what_fn=None):
         cnt['solver_s'] += r.get('solver_s', 0.0)
         cnt['vacuity_witnesses'] += sum(1 for q in r['queries'] if q['expect'] == 'sat' and q['verdict'] == 'sat')
         st = r['status']
+        for nv in r.get('native_validation', []):
+            cnt['native_validated'] = cnt.get('native_validated', 0) + (1 if nv['agrees'] else 0)
+            if nv['agrees'] is False:
+                chk.inconc(f"ISA model disagrees with the real CPU on {r['isa']} {r['shape']} {nv['exit']}: {nv['diffs']}")
+            elif nv['agrees'] is None:
+                cnt['native_not_comparable'] = cnt.get('native_not_comparable', 0) + 1
         if st == 'ok':
             cnt['discharged'] += 1
             if len(samples) < 6:
